@@ -189,18 +189,23 @@ DName(ls) == Cat([j \in 1..Len(ls) |-> <<Len(ls[j])>> \o ls[j]]) \o <<0>>
 RR(name, type, rdata) == DName(name) \o BE(type, 2) \o BE(1, 2) \o BE(0, 2) \o BE(120, 2) \o BE(Len(rdata), 2) \o rdata
 Svc == <<<<95, 109, 97, 116, 116, 101, 114, 99>>, <<95, 117, 100, 112>>, <<108, 111, 99, 97, 108>>>>          \* _matterc._udp.local
 Local == <<<<108, 111, 99, 97, 108>>>>
-\* d = [inst: label, host: label, port, txt: sequence of "k=v" strings, a6: 16 bytes, a4: <<>> | 4 bytes, ptr: the answer starts with the PTR record]
+\* d = [inst: label, host: label, port, txt: sequence of [k, v] pairs written "k=v", a6: 16 bytes, a4: <<>> | 4 bytes, ptr: the answer starts with the PTR record]
 MdnsBytes(d) ==
   LET inst == <<d.inst>> \o Svc  host == <<d.host>> \o Local
       recs == (IF d.ptr THEN <<RR(Svc, 12, DName(inst))>> ELSE <<>>)
               \o <<RR(inst, 33, BE(0, 2) \o BE(0, 2) \o BE(d.port, 2) \o DName(host)),
-                    RR(inst, 16, Cat([j \in 1..Len(d.txt) |-> <<Len(d.txt[j])>> \o d.txt[j]])),
+                    RR(inst, 16, Cat([j \in 1..Len(d.txt) |-> <<Len(d.txt[j].k) + 1 + Len(d.txt[j].v)>> \o d.txt[j].k \o <<61>> \o d.txt[j].v])),
                     RR(host, 28, d.a6)>>
               \o (IF d.a4 # <<>> THEN <<RR(host, 1, d.a4)>> ELSE <<>>) IN
   BE(0, 2) \o <<132, 0>> \o BE(0, 2) \o BE(Len(recs), 2) \o BE(0, 2) \o BE(0, 2) \o Cat(recs)
 Labels == {<<65, 66, 67, 68, 49, 50, 51, 52>>, <<48>>, <<70, 48, 48, 68, 45, 49, 50, 51, 52, 53, 54, 55, 56, 57, 65, 66, 67, 68, 69, 70>>, <<109, 121, 104, 111, 115, 116>>}
-Kvs == {<<>>, <<<<68, 61, 49, 50, 51, 52>>>>, <<<<68, 61, 51, 56, 52, 48>>, <<86, 80, 61, 54, 53, 53, 50, 49, 43, 51, 50, 55, 54, 57>>, <<67, 77, 61, 49>>>>,
-        <<<<83, 73, 73, 61, 53, 48, 48, 48>>, <<83, 65, 73, 61, 51, 48, 48>>, <<84, 61, 48>>>>}
+\* TXT pairs: key and value; the key ends at the FIRST "=" (RFC 6763 6.4), a value may contain more of them (DN=Lamp=Desk, base-64 padding)
+KV(k, v) == [k |-> k, v |-> v]
+Kvs == {<<>>, <<KV(<<68>>, <<49, 50, 51, 52>>)>>,
+        <<KV(<<68>>, <<51, 56, 52, 48>>), KV(<<86, 80>>, <<54, 53, 53, 50, 49, 43, 51, 50, 55, 54, 57>>), KV(<<67, 77>>, <<49>>)>>,
+        <<KV(<<83, 73, 73>>, <<53, 48, 48, 48>>), KV(<<83, 65, 73>>, <<51, 48, 48>>), KV(<<84>>, <<48>>)>>,
+        <<KV(<<68, 78>>, <<76, 97, 109, 112, 61, 68, 101, 115, 107>>), KV(<<68>>, <<49>>)>>,
+        <<KV(<<80, 73>>, <<99, 72, 74, 108, 99, 51, 77, 103, 77, 110, 77, 61>>), KV(<<88>>, <<61>>), KV(<<89>>, <<>>)>>}
 A6 == {<<254, 128, 0, 0, 0, 0, 0, 0, 2, 1, 2, 255, 254, 3, 4, 5>>, <<32, 1, 13, 184, 0, 0, 0, 0, 0, 0, 0, 0, 0, 0, 0, 1>>}
 DrawMdns(k) == [inst |-> RandomElement(Labels), host |-> RandomElement(Labels), port |-> RandomElement(U16 \ {0}), txt |-> RandomElement(Kvs),
                 a6 |-> RandomElement(A6), a4 |-> RandomElement({<<>>, <<192, 168, 1, 5>>, <<10, 0, 0, 255>>}), ptr |-> RandomElement(Bool)]
